@@ -12,6 +12,9 @@
 (*   "XEscape"    the printer writes control / Latin-1 characters as \xNN (Python's           *)
 (*                unicode_escape codec); the reader knows no \x escape                        *)
 (*   "GreedyHex"  the reader of \uXXXX consumes hex digits greedily instead of exactly 4       *)
+(*   "EscHexAfterU" (printer option) a hex-digit character directly after a \u escape is      *)
+(*                written as \uXXXX too: {"GreedyHex", "EscHexAfterU"} is the second scheme    *)
+(*                that round-trips (PrintRead_MCB.cfg) -- the greedy reader can be kept        *)
 (* With Dev = {} (the required scheme) the round trip holds; with either deviation TLC finds   *)
 (* the minimal witnesses (<<"lat1">>, <<"bmp", "hexalpha">>).  The generation job emits every  *)
 (* (value, configuration) together with the outcome each deviation alone would produce, so     *)
@@ -122,9 +125,17 @@ EscTok(c, d) ==
   ELSE IF c \in CtlClasses \cup {"lat1", "bmp"} THEN <<T("bs"), <<"L", "u">>>> \o Rep(4, <<"H", c>>)
   ELSE IF c = "astral" THEN <<T("bs"), <<"L", "U">>>> \o Rep(8, <<"H", c>>)
   ELSE << <<"c", c>> >>
-RECURSIVE PrintStrBody(_, _)
-PrintStrBody(cs, d) == IF cs = <<>> THEN <<>> ELSE EscTok(Head(cs), d) \o PrintStrBody(Tail(cs), d)
-PrintStr(cs, d) == <<T("dq")>> \o PrintStrBody(cs, d) \o <<T("dq")>>
+IsUniEsc(c, d) == ~(c \in XClasses /\ "XEscape" \in d) /\ c \in CtlClasses \cup {"lat1", "bmp", "astral"}
+(* "EscHexAfterU": a raw hex-digit character directly after a \u escape is itself written as \uXXXX  *)
+(* (the scheme that keeps a greedy \u reader readable)                                               *)
+RECURSIVE PrintStrBody(_, _, _)
+PrintStrBody(cs, d, after) ==
+  IF cs = <<>> THEN <<>>
+  ELSE LET c == Head(cs) IN
+       IF "EscHexAfterU" \in d /\ after /\ c \in HexRaw
+       THEN <<T("bs"), <<"L", "u">>>> \o Rep(4, <<"H", c>>) \o PrintStrBody(Tail(cs), d, TRUE)
+       ELSE EscTok(c, d) \o PrintStrBody(Tail(cs), d, IsUniEsc(c, d))
+PrintStr(cs, d) == <<T("dq")>> \o PrintStrBody(cs, d, FALSE) \o <<T("dq")>>
 
 Open == [list |-> <<T("(")>>, vec |-> <<T("[")>>, set |-> <<T("#{")>>, queue |-> <<T("#queue"), SP, T("(")>>,
          pylist |-> <<T("#py"), SP, T("[")>>, pytuple |-> <<T("#py"), SP, T("(")>>,
@@ -304,4 +315,37 @@ EmitV == (v # None /\ Claims(v, cfg)) =>
            PrintT(<<"BEH", ToJson([v |-> v, cfg |-> cfg, x |-> Outcome(v, cfg, {"XEscape"}),
                                     g |-> Outcome(v, cfg, {"GreedyHex"}),
                                     xg |-> Outcome(v, cfg, {"XEscape", "GreedyHex"})])>>)
+(* ------------------------------- codec views (C19) ---------------------------------------- *)
+(* EDN: the part of the universe that is EDN data (what the EDN writer is specified for); the      *)
+(* round trip through the EDN reader and through the Lisp reader must be the identity on it.       *)
+RECURSIVE InEdn(_)
+InEdn(x) == /\ x.ty \in {"nil", "bool", "int", "float", "str", "kw", "sym", "uuid", "inst", "list", "vec", "map", "set"}
+            /\ \A i \in 1..Len(x.xs) : InEdn(x.xs[i])
+(* JSON: maps (keys: keywords, symbols, strings), sequential collections and sets, strings, numbers, *)
+(* booleans, nil; keywords and symbols as values.  JsonNorm is the documented coercion:             *)
+(*   map keys      -> (name k): the name as a string, the namespace is dropped                       *)
+(*   kw / sym      -> the string "ns/name"                                                           *)
+(*   list vec set  -> vector (a set in unspecified order)                                            *)
+IsJsonKey(k) == k.ty \in {"kw", "sym", "str"}
+KeyName(k) == IF k.ty = "str" THEN k ELSE V("namestr", "", k.n, <<>>, <<>>)
+RECURSIVE InJson(_)
+InJson(x) ==
+  /\ x.ty \in {"nil", "bool", "int", "float", "str", "kw", "sym", "list", "vec", "set", "map"}
+  /\ (x.ty = "float" => x.n \notin {"inf", "-inf", "nan"})
+  /\ (x.ty = "map" => /\ \A i \in 1..Len(KeysOf(x.xs)) : IsJsonKey(KeysOf(x.xs)[i])
+                       /\ Distinct([j \in 1..Len(KeysOf(x.xs)) |-> KeyName(KeysOf(x.xs)[j])]))
+  /\ \A m \in 1..Len(x.xs) : (x.ty = "map" /\ m % 2 = 1) \/ InJson(x.xs[m])
+RECURSIVE JsonNorm(_)
+JsonNorm(x) ==
+  CASE x.ty \in {"kw", "sym"} -> V("namestr", x.ns, x.n, <<>>, <<>>)
+    [] x.ty \in {"list", "vec"} -> Coll("vec", [i \in 1..Len(x.xs) |-> JsonNorm(x.xs[i])])
+    [] x.ty = "set" -> Coll("vec-unordered", [i \in 1..Len(x.xs) |-> JsonNorm(x.xs[i])])
+    [] x.ty = "map" -> Coll("map", [i \in 1..Len(x.xs) |-> IF i % 2 = 1 THEN KeyName(x.xs[i]) ELSE JsonNorm(x.xs[i])])
+    [] OTHER -> x
+JsonNormIdempotent == (v # None /\ InJson(v)) => JsonNorm(JsonNorm(v)) = JsonNorm(v)
+(* the EDN view of the round trip: EDN text is the printed language without print-control Vars *)
+EdnRoundTrip == (v # None /\ InEdn(v)) => Outcome(v, NoDup, Dev) = "same"
+EmitC == (v # None /\ cfg = NoDup /\ (InEdn(v) \/ InJson(v))) =>
+           PrintT(<<"COD", ToJson([v |-> v, edn |-> InEdn(v), json |-> InJson(v),
+                                    jn |-> IF InJson(v) THEN JsonNorm(v) ELSE None])>>)
 ===================================================================================
